@@ -191,7 +191,7 @@ Definition sub_tin (t : tin) (ids : list nat) (nbest : nat) : tin :=
                             | Some f => [f] | None => [] end) ids)
         (t_filters t).
 
-(* pre-selection of n_best // 2 features in every sample *)
+(* pre-selection of max(1, n_best // 2) features in every sample (/repo f64757f) *)
 Fixpoint select_samples (t : tin) (samples : list (list nat)) (nb : nat) : res (list nat) :=
   match samples with
   | [] => Ok []
@@ -200,7 +200,7 @@ Fixpoint select_samples (t : tin) (samples : list (list nat)) (nb : nat) : res (
 
 (* final selection among the pre-selected features (`if any(best_features)`) *)
 Definition select_type_cs (t : tin) (shuffled : list nat) (chunks k : nat) : res (list nat) :=
-  do best <- select_samples t (col_samples chunks k shuffled) (Nat.div (t_nbest t) 2);
+  do best <- select_samples t (col_samples chunks k shuffled) (Nat.max 1 (Nat.div (t_nbest t) 2));
   match best with
   | [] => Ok []
   | _ => select_type (sub_tin t best (t_nbest t))
